@@ -48,6 +48,7 @@ def dispatch (op : String) (payload : Json) : R Json :=
   | "file_decision" => C11.handleDecision payload
   | "is_name" => C11.handleIsName payload
   | "declared_unbind" => C11.handleDeclaredUnbind payload
+  | "re_match" => C11.handleReMatch payload
   | "no_crash_shape" => C07.handle payload
   | "no_crash_shape_file" => C07File.handle payload
   | "no_crash_shape_pipeline" => C07File.handlePipeline payload
